@@ -148,8 +148,13 @@ where
     let case = json!({"what": "file", "type": name, "len": data.len(), "pages": pages});
     rep.evaluations += 1;
     rep.distinct_nontrivial += 1;
+    // Every other case writes over an older, longer recording at the path.
+    let over = data.len() % 2 == 1;
+    if over {
+        std::fs::write(&path, vec![0xabu8; data.len() * <T as Sample>::size() + 4096]).unwrap();
+    }
     let (src, o) = VectorSource::new(data.clone());
-    let sink = match FileSink::<T>::new(o, &path, Mode::Create) {
+    let sink = match FileSink::<T>::new(o, &path, if over { Mode::Overwrite } else { Mode::Create }) {
         Ok(s) => s,
         Err(e) => return viol(rep, "FileSink", "open", format!("{case}: {e}"), case),
     };
